@@ -270,7 +270,8 @@ def fam_threads(E, real=False, max_switches=10):
 FAMILIES = [
     Family('sequence', fam_sequence,
            quick=dict(nruns=2, kinds=[SUCCESS, RAISES, RETURNS, NESTED, WAITERS, TILL]),
-           thorough=dict(nruns=3, kinds=[SUCCESS, RAISES, RETURNS, NESTED, WAITERS, TILL]),
+           thorough=dict(nruns=3, kinds=[SUCCESS, RAISES, RETURNS, NESTED, TILL], _max_paths=1500000,
+                         _max_wall=1500),
            reach=['raises', 'returns-value', 'nested', 'quiescent-with-waiters', 'till'],
            bounds='2 (thorough 3) runs in sequence'),
     Family('sequence_real', fam_sequence,
